@@ -16,10 +16,10 @@ def reader_fragment_rules(ck, d, P):
     # ---- R1 first fragment: payload window and context fields (no extension)
     nfirst = 0
     for r in d.events('write'):
-        if short(r.site[0]) != 'decap_first':
-            continue
         _, base, start, ln, src = r.data[:5]
         W = r.data[6]
+        if kind_of(W) != 1:
+            continue
         if src[0] != 'seq' or src[1].root != buf[1].root or ghost(W, 'ext') is not None:
             continue
         kind, lt_ = c01.part_of(f, W)
@@ -36,7 +36,7 @@ def reader_fragment_rules(ck, d, P):
     ck.rule(f'{P}.R1 payload copies of decap_first (no extension)', nfirst, 4)
     nnew = 0
     for r in d.events('call'):
-        if r.data[2] != TRAIT_MEM + 'new_frag' or short(r.site[0]) != 'decap_first':
+        if r.data[2] != TRAIT_MEM + 'new_frag' or kind_of(r.data[5]) != 1:
             continue
         W = r.data[5]
         if ghost(W, 'ext') is not None:
@@ -86,7 +86,7 @@ def reader_fragment_rules(ck, d, P):
                 if nm in ENV_ERRORS:
                     continue
                 ck.obligations += 1
-                post = []
+                post = [le(gse + 2, buf[3])]                          # the receiver is given the whole packet
                 if kind == 1:
                     L = LABEL_LEN[lt_]
                     tl = c01.be(buf, 3, 2)
